@@ -77,6 +77,34 @@ def classify(target, visible):
     return 'unknown'
 
 
+def check_move_replaces(A, R: Report, rid: str, classes):
+    """shutil.move onto an existing directory moves the source INTO it: every publishing shutil.move onto the visible path
+    must be preceded (in the same function) by the removal of that path."""
+    E = effects_of(A)
+    n = 0
+    filedata = A.cls('FileData')
+    for ci, vis in classes:
+        if ci.is_subclass_of(filedata):
+            continue   # a single file: rename / move onto an existing file replaces it
+        for mname in ('save', 'finished', 'set_value'):
+            f = ci.lookup(mname)
+            if f is None:
+                continue
+            evs = E.collect(Ctx(f, ('inst', ci)), kinds=FS_MUTATING)
+            moves = [e for e in evs if e.kind == 'FS_RENAME' and classify(e.target, vis) == 'visible' and src(e.site).startswith('shutil.move')]
+            dels = [e for e in evs if e.kind == 'FS_DELETE' and classify(e.target, vis) == 'visible']
+            cfg = A.cfg(f)
+            for m in moves:
+                n += 1
+                mn = [c.id for c in cfg_nodes_for(cfg, m.root_node)]
+                before = any(cfg.path_exists([c.id for c in cfg_nodes_for(cfg, d.root_node)], mn) for d in dels) if mn else False
+                same_site = any(d.root_node is m.root_node for d in dels)   # delete and move inside one helper call
+                R.check(before or same_site, rid, f'{ci.short}.{mname}: `{src(m.site)[:50]}`', key_of('move-onto-existing', ci.short, mname, before or same_site), 'the visible directory is removed before the new one is moved into place',
+                        f'`{src(m.site)[:60]}` moves the new result onto `{pretty(m.target)[:60]}` without removing an existing directory first: on a forced recomputation the new directory lands INSIDE the old result, which stays as it was',
+                        witness=[e.describe()[:200] for e in moves + dels], where=where(f, m.root_node))
+    return n
+
+
 def check_atomic_publish(A, R: Report, rid: str, classes):
     E = effects_of(A)
     for ci, vis in classes:
